@@ -519,15 +519,25 @@ func allInjections() []injection {
 				return false
 			}
 			b := &jwt.Import{Name: "dup", Account: g.acctKey(), Type: jwt.Service}
-			switch g.rng.Intn(3) {
+			switch g.rng.Intn(6) {
 			case 0:
 				b.Subject = a.Subject
 			case 1:
 				b.Subject = "ovl.>"
 				a.Subject = "ovl.x"
-			default:
+			case 2:
 				a.Subject = "ovl.*"
 				b.Subject = "ovl.y"
+			case 3: // the local subject counts, with its references read as wildcards - also a leading one
+				a.Subject, a.LocalSubject = "ovl.*", "$1.foo"
+				b.Subject = "zz.foo"
+			case 4:
+				a.Subject, a.LocalSubject = "ovl.*.*", "$2.mid.$1"
+				b.Subject = "k.mid.j"
+			default:
+				a.Subject, a.LocalSubject = "ovl.*", "lo.$1"
+				b.Subject, b.LocalSubject = "other.*", "$1.q"
+				b.Subject, b.LocalSubject = "other.*", "lo.$1"
 			}
 			pos := g.rng.Intn(len(ac.Imports) + 1)
 			ac.Imports = append(ac.Imports[:pos], append(jwt.Imports{b}, ac.Imports[pos:]...)...)
@@ -791,7 +801,17 @@ func allInjections() []injection {
 		acctInj("K2 scope key role", func(g *cleanGen, ac *jwt.AccountClaims) bool {
 			us := jwt.NewUserScope()
 			us.Key = g.pick(g.userKey(), "garbage")
-			ac.SigningKeys.AddScopedSigner(us)
+			switch g.rng.Intn(3) {
+			case 0: // the scope held by value (UserScope has value receivers: a value is a Scope too)
+				ac.SigningKeys.AddScopedSigner(*us)
+			case 1: // filed directly, by value
+				if ac.SigningKeys == nil {
+					ac.SigningKeys = jwt.SigningKeys{}
+				}
+				ac.SigningKeys[us.Key] = *us
+			default:
+				ac.SigningKeys.AddScopedSigner(us)
+			}
 			return true
 		}),
 		acctInj("account info", func(g *cleanGen, ac *jwt.AccountClaims) bool {
